@@ -28,10 +28,15 @@ type c16Case struct {
 }
 
 func c16Gen(rt *rapid.T) c16Case {
-	c := c16Case{Cache: rapid.OneOf(rapid.IntRange(12, 20), rapid.IntRange(12, 40)).Draw(rt, "cache")}
+	c := c16Case{Cache: rapid.OneOf(rapid.IntRange(12, 20), rapid.IntRange(12, 40), rapid.IntRange(8, 11)).Draw(rt, "cache")}
 	maxRows := 4 * (c.Cache - 6) // a full-table UPDATE/DELETE must fit the cache: <= rows/4 leaves + path
 	cfg := gen.HistCfg{MinStmts: 25, MaxStmts: 90, MaxTables: 6, MaxCols: 3, Direct: true,
 		RowCounts: []int{2, 4, 8, 9, 10, 12, 17}, Small: true}
+	if c.Cache < 12 {
+		// a cache of a few pages more than one statement needs: what is resident is decided by the last
+		// handful of lookups, and the catalog of a few tables alone is as large as the cache
+		cfg.MaxTables, cfg.RowCounts = 9, []int{1, 1, 2, 4, 8, 9}
+	}
 	if rapid.IntRange(0, 2).Draw(rt, "bigcatalog") == 0 {
 		// a catalog that alone is larger than the cache: many tables with many columns
 		c.Cache = rapid.IntRange(12, 16).Draw(rt, "cache_small")
